@@ -135,6 +135,10 @@ Definition stop_byte (c : byte) : bool :=
 Definition stop_rest (rest : bytes) : bool :=
   match rest with [] => true | c :: _ => stop_byte c end.
 
+(* what may follow a keyword or an identifier: the end, or a byte that is not part of one *)
+Definition after_word (Y : bytes) : bool :=
+  match Y with [] => true | y :: _ => negb (is_ident y) && negb (beq y NUL) end.
+
 Definition wf_section (g : isection) (rest : bytes) : bool :=
   wf_trivia (f_t0 g) && wf_trivia (f_t1 g) && negb (is_nil_b (render_trivia (f_t1 g)))
   && wf_ident (f_pkg g)
@@ -142,7 +146,4 @@ Definition wf_section (g : isection) (rest : bytes) : bool :=
   && wf_trivia (f_tend g)
   && stop_rest rest
   (* the package name is not glued to what follows it *)
-  && match render_decls (f_decls g) ++ render_trivia (f_tend g) ++ rest with
-     | [] => true
-     | c :: _ => negb (is_ident c)
-     end.
+  && after_word (render_decls (f_decls g) ++ render_trivia (f_tend g) ++ rest).
